@@ -20,9 +20,11 @@ PlaneSectorNew(a0, sw, NoSwap) ==
       startS == IF sw < 0 /\ ~NoSwap THEN endA ELSE a0
       endS   == IF sw < 0 /\ ~NoSwap THEN a0 ELSE endA
   IN [op |-> op, right |-> NormalT(startS), left |-> NormalT(endS)]
-\* PlaneSector::contains (:68-85, incl. the degenerate-ray guard of the D20 repair)
+\* PlaneSector::contains (:78-105, incl. the degenerate-ray guard of the D20 repair as widened by D30: the borders are
+\* the same line when the truncated normals are parallel and point the same way; they need not be equal)
 BehindRay(ps, p) ==
-  /\ ps.op = "intersection" /\ ps.left = ps.right
+  /\ ps.op = "intersection"
+  /\ ps.left[1] * ps.right[2] - ps.left[2] * ps.right[1] = 0 /\ DotP(ps.left, ps.right) > 0
   /\ DotP(<<ps.right[2], -ps.right[1]>>, p) < 0
 PlaneContains(ps, p) ==
   LET s1 == DotP(ps.left, p) <= 0  s2 == DotP(ps.right, p) >= 0 IN
